@@ -218,6 +218,34 @@ def generated(quick):
         add('long-comment/%d' % ln, '/*' + 'x' * ln + '*/ int x;\n')
         add('long-char/%d' % ln, "int x = '" + 'a' * min(ln, 70000) + "';\n")
         add('long-macro-arg/%d' % ln, '#define f(a) #a\nchar s[] = f(' + 'a ' * (ln // 2) + ');\n')
+    # a long token of every class in every consumer context, around every power-of-two buffer threshold
+    ctxs = [
+        ('decl-name', 'int %s;'), ('init-value', 'long v = %s;'), ('stringized-arg', '#define S(x) #x\nchar s[] = S(%s);'),
+        ('stringized-arg-after-text', '#define S(x) #x\nchar s[] = S(abc + %s);'), ('plain-arg', '#define I(x) x\nint q = sizeof(I(%s));'),
+        ('both-arg', '#define B(x) #x, sizeof(x)\nvoid g(char *, long); void f(void) { int %s; g(B(%s)); }'),
+        ('macro-body', '#define M %s\nint z = sizeof(M);'), ('macro-name', '#define %s 1\nint y = %s;'), ('undef-name', '#undef %s'),
+        ('macro-param', '#define P(%s) %s\nint w = P(3);'), ('variadic-arg', '#define V(...) #__VA_ARGS__\nchar t[] = V(1, %s, 2);'),
+        ('label', 'void f(void) { %s: ; goto %s; }'), ('member', 'struct m { int %s; } mm = { .%s = 1 };'), ('tag', 'struct %s { int a; } tt;'),
+        ('enumerator', 'enum { %s = 3 }; int e = %s;'), ('param', 'int f(int %s) { return %s; }'), ('asm-label', 'int al __asm__("%s");'),
+        ('attribute', '[[%s]] int at;'), ('gnu-attribute', '__attribute__((%s)) int ga;'), ('line-file', '#line 5 "%s"\nint lf = ;'),
+        ('static-assert-msg', '_Static_assert(0, "%s");'), ('case-expr', 'void f(int c) { switch (c) { case %s: ; } }'),
+        ('pragma', '#pragma %s'), ('unknown-directive', '#%s'), ('typedef-name', 'typedef int %s; %s tv;'), ('goto-undefined', 'void f(void) { goto %s; }'),
+        ('undeclared-use', 'int u = %s;'), ('call-undeclared', 'int c = %s(1);'), ('redefinition', 'int %s; long %s;'),
+    ]
+    lens = [63, 64, 65, 255, 256, 257, 511, 512, 513, 1023, 1024, 1025] + ([] if quick else [2047, 2048, 2049, 4095, 4096, 4097, 65535, 65536, 65537])
+    for ln in lens:
+        toks = {'ident': 'a' * ln, 'number': '1' + '0' * (ln - 1), 'ppnumber': '1' + 'e+' * ((ln - 1) // 2)}
+        for tk, tv in toks.items():
+            for cn, ct in ctxs:
+                if tk != 'ident' and cn in ('decl-name', 'macro-name', 'undef-name', 'macro-param', 'label', 'member', 'tag', 'enumerator', 'param',
+                                             'typedef-name', 'redefinition', 'call-undeclared', 'goto-undefined'):
+                    continue
+                add('long-%s-in-%s/%d' % (tk, cn, ln), ct.replace('%s', tv) + '\n')
+        sv = 'b' * ln
+        for cn, ct in (('string-init', 'char si[] = "%s";'), ('string-stringized', '#define S(x) #x\nchar ss[] = S("%s");'),
+                       ('string-concat', 'char sc[] = "%s" "%s";'), ('wide-string', 'unsigned ws[] = U"%s";'), ('char-const', "int cc = '%s';"),
+                       ('string-escapes', 'char se[] = "' + '\\n' * (ln // 2) + '";'), ('string-in-macro-body', '#define SB "%s"\nchar sb[] = SB;')):
+            add('long-string-in-%s/%d' % (cn, ln), ct.replace('%s', sv) + '\n')
     # a long token in every diagnostic that formats one (64-byte tokendesc buffers)
     for w in ('a' * 70, '"' + 'b' * 70 + '"', '1' * 70, "'" + 'c' * 70 + "'"):
         for tmpl in ('int x = %s %s;', 'int %s %s;', 'struct %s { int x; } y; struct %s z = { %s };', '#define %s\n#%s', 'void f(void) { goto %s; %s }',
